@@ -171,7 +171,7 @@ def row_loop_of(w2j):
     return cands[0]
 
 
-def eval_prologue(ctx, rid, w2j, loop, row, row_number=7):
+def eval_prologue(ctx, rid, w2j, loop, row, row_number=7, carried=None):
     """Evaluate the statements of one loop iteration from the top of the body up to the statement that parses the
     `parameters` cell (frame lookup, deprecated `disabled` column, empty rows, type / name extraction, rows without a
     type).  -> (outcome, warnings, row, env); outcome in 'proceeds' | 'skipped' | ('error', Raised)."""
@@ -190,6 +190,19 @@ def eval_prologue(ctx, rid, w2j, loop, row, row_number=7):
     warnings = []
     frame = {"control_type": None, "control_name": None, "parent_children": []}
     env = {row_name: row, rn_name: row_number, "stack": [frame], "warnings": warnings}
+    # loop-carried state: plain constants / empty containers assigned in the function before the loop keep their
+    # initial values for a first iteration (or the values a caller carries over from the previous iteration)
+    for st0 in w2j.node.body:
+        if st0 is loop or getattr(st0, "lineno", 0) >= loop.lineno:
+            break
+        if isinstance(st0, ast.Assign) and len(st0.targets) == 1 and isinstance(st0.targets[0], ast.Name) and st0.targets[0].id not in env:
+            v0 = st0.value
+            if isinstance(v0, ast.Constant):
+                env[st0.targets[0].id] = v0.value
+            elif isinstance(v0, ast.List | ast.Dict | ast.Set) and not (getattr(v0, "elts", None) or getattr(v0, "keys", None)):
+                env[st0.targets[0].id] = {"List": [], "Dict": {}, "Set": set()}[type(v0).__name__]
+    if carried:
+        env.update({k: v for k, v in carried.items() if k not in (row_name, rn_name, "warnings")})
     it = ctx.interp(rid)
     it.reset([])
     try:
@@ -221,6 +234,19 @@ def row_prologue_obligations(ctx, rule, rid):
               ("no type, neither name nor label (comment row)", {"hint": "just a remark"}, "skipped", 1),
               ("no type, name only", {"name": "q"}, "error", 0), ("no type, label only", {"label": "L"}, "error", 0), ("no type, name and label", {"name": "q", "label": "L"}, "error", 0),
               ("empty type cell, name only", {"type": "", "name": "q"}, "error", 0), ("no type, name and other cells", {"name": "q", "bind": {"calculate": "1"}}, "error", 0)]
+    # a disabled row affects that row only: what follows a disabled begin / end row is taken up as usual (disabling both the
+    # begin and the end row dissolves the group and keeps its questions)
+    seq = [({"type": "begin group", "name": "g", "label": "G", "disabled": "yes"}, "skipped"), ({"type": "text", "name": "q1", "label": "Q1"}, "proceeds"),
+           ({"type": "begin repeat", "name": "r", "label": "R"}, "proceeds"), ({"type": "text", "name": "q2", "label": "Q2"}, "proceeds"),
+           ({"type": "end repeat"}, "proceeds"), ({"type": "end group", "disabled": "yes"}, "skipped"), ({"type": "text", "name": "q3", "label": "Q3"}, "proceeds")]
+    carried = None
+    got_seq = []
+    for i_, (row_, _want) in enumerate(seq):
+        out_, _ws, _row_after, env_ = eval_prologue(ctx, rid, w2j, loop, dict(row_), row_number=2 + i_, carried=carried)
+        got_seq.append(out_ if isinstance(out_, str) else "error")
+        carried = {k: v for k, v in env_.items() if isinstance(v, int | str | bool | type(None)) and not k.startswith("__")}
+    rule.check(got_seq == [w for _r, w in seq], "row prologue[rows after a disabled begin / end row]", "only the disabled rows themselves are skipped; the rows between and after them are taken up",
+               w2j.loc(loop), why_fail=f"outcomes {got_seq}")
     for desc, row, want, n_warn in cases:
         row = {k: (dict(v) if isinstance(v, dict) else v) for k, v in row.items()}
         out, ws, row_after, env = eval_prologue(ctx, rid, w2j, loop, row)
